@@ -28,7 +28,7 @@ pub struct PairCase {
 
 pub fn pair_case(ptype: &'static str, w: &Weights, max_uni: usize, max_ops: usize) -> BoxedStrategy<PairCase> {
     (
-        gen::case(ptype, w, max_uni, max_ops, 0),
+        gen::case_min(ptype, w, 3, max_uni, 6, max_ops),
         gen::nav_prog(3),
         gen::nav_prog(3),
         prop_oneof![6 => Just(0u8), 2 => Just(1u8), 1 => Just(2u8)],
@@ -62,6 +62,14 @@ pub fn nav_ro<'a, P: TP, V: Val>(mut v: TrieView<'a, P, V>, nav: &[Nav], env: &m
             Nav::At(p) => {
                 env.cur_op = "view.view_at";
                 v.view_at(rs(env, *p))?
+            }
+            Nav::AtCut(p, k) => {
+                env.cur_op = "view.view_at";
+                v.view_at(crate::model::mk(resolve_cut(&env.uni, *p, *k, P::W)))?
+            }
+            Nav::AtRaw(r) => {
+                env.cur_op = "view.view_at";
+                v.view_at(crate::model::mk(*r))?
             }
             Nav::Find(p) => {
                 env.cur_op = "view.find";
@@ -377,35 +385,15 @@ fn classify(env: &mut Env, sa: Key, sb: Key, ka: &'static str, kb: &'static str,
     }
 }
 
-/// Execute one pair case for prefix type P.
-pub fn run_pair<P: TP>(pc: &PairCase, env: &mut Env) -> R {
-    let mut w: World<P, u64, SV> = World::new();
-    let saved_focus = env.focus;
-    // build the operands without per-step observers beyond the baseline
-    env.focus = Focus(0);
-    let r = run_history(&mut w, &pc.case.ops, env);
-    env.focus = saved_focus;
-    if let Err(f) = r {
-        // the operands could not be built consistently: belongs to another property
-        return Err(crate::env::Fail {
-            prop: "BUILD",
-            sig: format!("BUILD:{}", f.sig),
-            msg: f.msg,
-        });
-    }
-    env.step = pc.case.ops.len();
-    let na = node_map(&w.a.map)?;
-    let nb = node_map(&w.b.map)?;
-    let leftover = na.iter().any(|(k, v)| !*v && k.len > 0) || nb.iter().any(|(k, v)| !*v && k.len > 0);
-    let lim = 4 * (w.a.model.len() + w.b.model.len()) + 64;
-    match pc.mode {
-        0 => {
+
+/// One pair of views over two maps: read-only set operations and their mutable twins.
+fn pair_two_maps<P: TP>(w: &mut World<P, u64, SV>, nav_a: &[Nav], nav_b: &[Nav], na: &BTreeMap<Key, bool>, nb: &BTreeMap<Key, bool>, leftover: bool, lim: usize, env: &mut Env) -> R {
             env.ev("mode_two_maps");
-            let Some((va, sa)) = nav_ro((&w.a.map).view(), &pc.nav_a, env) else {
+            let Some((va, sa)) = nav_ro((&w.a.map).view(), nav_a, env) else {
                 env.ev("nav_lost");
                 return Ok(());
             };
-            let Some((vb, sb)) = nav_ro((&w.b.map).view(), &pc.nav_b, env) else {
+            let Some((vb, sb)) = nav_ro((&w.b.map).view(), nav_b, env) else {
                 env.ev("nav_lost");
                 return Ok(());
             };
@@ -415,23 +403,23 @@ pub fn run_pair<P: TP>(pc: &PairCase, env: &mut Env) -> R {
                 env.ev("discarded_view_mismatch");
                 return Ok(());
             }
-            classify(env, sa, sb, root_kind(&na, key_of(va.prefix())), root_kind(&nb, key_of(vb.prefix())), &ea, &eb, leftover);
+            classify(env, sa, sb, root_kind(na, key_of(va.prefix())), root_kind(nb, key_of(vb.prefix())), &ea, &eb, leftover);
             check_setops_ro(&va, &vb, &ea, &eb, env)?;
             // mutable twins on the same navigation programs (C13: same prefixes / presence pattern)
-            if env.focus.has(13) || env.focus.has(5) || env.focus.has(6) || env.focus.has(7) {
+            if env.focus.has(13) || env.focus.has(5) || env.focus.has(6) || env.focus.has(7) || env.focus.has(8) {
                 // mutable twins must report bit-identical prefixes (it is the same stored entry)
                 let ro_union: Vec<(Raw, bool, bool)> = va.union(vb.clone()).take(lim).map(|it| (raw_of(it.prefix()), !matches!(it, UnionItem::Right { .. }), !matches!(it, UnionItem::Left { .. }))).collect();
                 let ro_inter: Vec<Raw> = va.intersection(vb.clone()).take(lim).map(|x| raw_of(x.0)).collect();
                 let ro_diff: Vec<Raw> = va.difference(vb.clone()).take(lim).map(|x| raw_of(x.prefix)).collect();
                 let ro_cdiff: Vec<Raw> = va.covering_difference(vb.clone()).take(lim).map(|x| raw_of(x.0)).collect();
-                let World { a, b } = &mut w;
+                let World { a, b } = &mut *w;
                 let c13 = env.focus.has(13);
                 for kind in 0..4u8 {
                     env.cur_op = "view_mut";
-                    let Some((mut ma_, _)) = nav_mut(a.map.view_mut(), &pc.nav_a, env) else {
+                    let Some((mut ma_, _)) = nav_mut(a.map.view_mut(), nav_a, env) else {
                         return fail("C13", "C13:mut-nav-lost", "mutable navigation failed where the read-only one succeeded".into());
                     };
-                    let Some((mb_, _)) = nav_mut(b.map.view_mut(), &pc.nav_b, env) else {
+                    let Some((mb_, _)) = nav_mut(b.map.view_mut(), nav_b, env) else {
                         return fail("C13", "C13:mut-nav-lost", "mutable navigation failed where the read-only one succeeded".into());
                     };
                     match kind {
@@ -462,6 +450,66 @@ pub fn run_pair<P: TP>(pc: &PairCase, env: &mut Env) -> R {
                             ensure!(got == ro_cdiff, if c13 { "C13" } else { "C07" }, "mut-twin:covering_difference_mut vs covering_difference", "covering_difference_mut yields {:?}, covering_difference yields {:?}", got, ro_cdiff);
                         }
                     }
+                }
+            }
+            Ok(())
+}
+
+/// Execute one pair case for prefix type P.
+pub fn run_pair<P: TP>(pc: &PairCase, env: &mut Env) -> R {
+    let mut w: World<P, u64, SV> = World::new();
+    let saved_focus = env.focus;
+    // build the operands without per-step observers beyond the baseline
+    env.focus = Focus(0);
+    let r = run_history(&mut w, &pc.case.ops, env);
+    env.focus = saved_focus;
+    if let Err(f) = r {
+        // the operands could not be built consistently: belongs to another property
+        return Err(crate::env::Fail {
+            prop: "BUILD",
+            sig: format!("BUILD:{}", f.sig),
+            msg: f.msg,
+        });
+    }
+    env.step = pc.case.ops.len();
+    let na = node_map(&w.a.map)?;
+    let nb = node_map(&w.b.map)?;
+    let leftover = na.iter().any(|(k, v)| !*v && k.len > 0) || nb.iter().any(|(k, v)| !*v && k.len > 0);
+    let lim = 4 * (w.a.model.len() + w.b.model.len()) + 64;
+    match pc.mode {
+        0 => {
+            pair_two_maps(&mut w, &pc.nav_a, &pc.nav_b, &na, &nb, leftover, lim, env)?;
+            // systematic sweep over pairs of roots of the same two maps: every node of each trie and the
+            // position one bit above it (virtual unless it is a node itself), a seed-dependent dozen each
+            let pick = |nodes: &BTreeMap<Key, bool>, salt: u64| -> Vec<Raw> {
+                let mut v: Vec<Key> = Vec::new();
+                for k in nodes.keys() {
+                    v.push(*k);
+                    if k.len > 0 {
+                        v.push(Key::new(k.net, k.len - 1));
+                    }
+                }
+                v.sort();
+                v.dedup();
+                let n = v.len();
+                let mut out = Vec::new();
+                let mut s = salt;
+                while out.len() < 7.min(n) {
+                    s = splitmix(s);
+                    let k = v[(s % n as u64) as usize];
+                    let r = Raw { bits: k.net, len: k.len };
+                    if !out.contains(&r) {
+                        out.push(r);
+                    }
+                }
+                out
+            };
+            let salt = fp_str(&format!("{:?}{:?}", pc.nav_a, pc.nav_b));
+            let (ra, rb) = (pick(&na, salt), pick(&nb, salt ^ 0x5555));
+            for a in &ra {
+                for b in &rb {
+                    env.ev("root_sweep_pair");
+                    pair_two_maps(&mut w, &[Nav::AtRaw(*a)], &[Nav::AtRaw(*b)], &na, &nb, leftover, lim, env)?;
                 }
             }
         }
@@ -604,7 +652,7 @@ pub fn run_pair_check(spec: &PairSpec, seed: u64) -> Outcome {
     let threads = std::thread::available_parallelism().map(|n| n.get()).unwrap_or(4).min(16);
     let weights = pair_weights();
     let mut o = run_parallel(jobs, threads, |(t, sh)| {
-        let strat = pair_case(t, &weights, 12, spec.max_ops);
+        let strat = pair_case(t, &weights, 16, spec.max_ops);
         let label = format!("{}-{}-{}", spec.id, t, sh);
         let mut o = run_shard(spec.id, &label, strat, spec.cases, seed.wrapping_mul(1_000_003).wrapping_add(sh as u64), &accept, &known, |c| exec_pair_dyn(c, spec, &known, false));
         o.classes.insert(format!("type:{t}"), o.evaluations);
